@@ -24,6 +24,28 @@ pub struct Family {
 }
 
 const REPO: &str = include_str!("../corpus_repo.jsonl");
+const BLOCKS: &str = include_str!("../corpus_blocks.tsv");
+
+/// (lookup name, first code point, last code point) of every block, sorted by name so
+/// that neighbours have similar names (Greek / GreekExtended, Cyrillic / CyrillicExtended-A).
+pub fn blocks() -> &'static [(String, u32, u32)] {
+    static B: OnceLock<Vec<(String, u32, u32)>> = OnceLock::new();
+    B.get_or_init(|| {
+        let mut v: Vec<(String, u32, u32)> = BLOCKS
+            .lines()
+            .filter_map(|l| {
+                let mut it = l.split('\t');
+                Some((
+                    it.next()?.to_string(),
+                    it.next()?.parse().ok()?,
+                    it.next()?.parse().ok()?,
+                ))
+            })
+            .collect();
+        v.sort();
+        v
+    })
+}
 
 /// (dialect_is_xsd, pattern, flags, inputs, replacements)
 type Hand = (bool, &'static str, &'static str, &'static [&'static str], &'static [&'static str]);
